@@ -56,7 +56,14 @@ def check(run):
                     [n for n in walk_local(fromf.node) if isinstance(n, ast.If) and n.body and isinstance(n.body[-1], ast.Raise)
                      and unparse(n.test) == "not isinstance(%s, cls)" % dom]
             rets = [n for n in walk_local(fromf.node) if isinstance(n, ast.Return)]
-            ok = bool(guard) and len(rets) == 1 and dotted(rets[0].value) == dom and \
+            # the returned name is the checked object, or a result variable assigned from it inside the guarded branch
+            aliases = {dom} | {t.id for g_ in guard for st_ in g_.body for a_ in ast.walk(st_) if isinstance(a_, ast.Assign) and dotted(a_.value) == dom
+                               for t in a_.targets if isinstance(t, ast.Name)}
+            if len(rets) == 1 and dotted(rets[0].value) in aliases - {dom} and guard:
+                ok_alias = True
+            else:
+                ok_alias = False
+            ok = ok_alias or bool(guard) and len(rets) == 1 and dotted(rets[0].value) == dom and \
                 (guard[0].lineno < rets[0].lineno and (any(rets[0] is x for st in guard[0].body for x in ast.walk(st)) or not guard[0].orelse))
             run.ob("C28.R2", "%s:%s._from%s:instance-check" % (DM, cname, fmt), ok, run.site(fromf),
                    "" if ok else "_from%s can return something that is not an instance of cls (a plain dict when datify gives up)" % fmt)
